@@ -83,7 +83,7 @@ func corpusCases(seeds []int64, passes []int) []fw.Case {
 func (c20) Cases(tier string, seed uint64) []fw.Case {
 	var cases []fw.Case
 	if tier == "thorough" {
-		cases = append(cases, corpusCases(seedList(0, 32), []int{1, 2, 3, 5})...)
+		cases = append(cases, corpusCases(seedList(0, 24), []int{1, 2, 3, 5})...)
 	} else {
 		cases = append(cases, corpusCases(seedList(0, 8), []int{1, 2, 3})...)
 	}
